@@ -1097,6 +1097,13 @@ func (w *world) templates() []tmpl {
 		{ent, "enableConf", []string{q("p2pblack"), "false"}, nil},
 		{ent, "changeCluster", []string{`{"command":"add","name":"n4","address":"/ip4/127.0.0.1/tcp/7846","peerid":"` + pid39 + `"}`}, nil},
 		{ent, "changeCluster", []string{`{"command":"remove","id":"dd44cf1a06727dc5"}`}, nil},
+		// member attributes the enterprise validator accepts and the raft cluster code then has to digest
+		{ent, "changeCluster", []string{`{"command":"add","name":"n5","address":"/ip4/1.2.3.4","peerid":"` + pid39b + `"}`}, nil},
+		{ent, "changeCluster", []string{`{"command":"add","name":"n1","address":"/dns/localhost/tcp/1","peerid":"` + pid39 + `"}`}, nil},
+		{ent, "changeCluster", []string{`{"command":"add","name":"","address":"/ip6/::1/tcp/7846","peerid":"` + pid39b + `"}`}, nil},
+		{ent, "changeCluster", []string{`{"command":"add","name":"` + strings.Repeat("n", 300) + `","address":"/ip4/127.0.0.1/tcp/7802","peerid":"QmNp5n7FFav5ZDaHAj6HzuhJ8LDbL1N6NRzAgT6piWS2Kx"}`}, nil},
+		{ent, "changeCluster", []string{`{"command":"remove","id":"0"}`}, nil},
+		{ent, "changeCluster", []string{`{"command":"remove","id":"ffffffffffffffff"}`}, nil},
 	}
 }
 
@@ -1285,7 +1292,9 @@ func main() {
 	}
 	must := func(a, e string) {
 		if a != "ok" || e != "done" {
-			panic("scenario step failed: " + a + " " + e)
+			// the failure itself is reported by runCase's oracle (a panic) or shows as a trace difference; the later
+			// phases then run in a state that lacks this step
+			run.Count("scenario-step-failed:" + a + "/" + e)
 		}
 	}
 	attempt := func(a, e string) {
@@ -1306,9 +1315,7 @@ func main() {
 	must(one(w, 0, nam, `{"Name":"v1createName","Args":["abcdefghijkl"]}`, coins(1), true))
 	must(one(w, 0, ent, `{"Name":"appendAdmin","Args":["`+a0+`"]}`, nil, true))
 	// a contract (stub VM: the payload is its code and its script), then every other transaction type
-	if a, e := w.runCase(&txCase{who: 0, payload: []byte(`{"ret":"deployed"}`), typ: types.TxType_DEPLOY, label: "scenario"}, true); a != "ok" || e != "done" {
-		panic("deploy failed: " + a + " " + e)
-	}
+	must(w.runCase(&txCase{who: 0, payload: []byte(`{"ret":"deployed"}`), typ: types.TxType_DEPLOY, label: "scenario"}, true))
 	contractAddr := contract.CreateContractID(w.addrs[0], w.lastNonce(0))
 	w.runOther("1-other-types", contractAddr, true, thorough)
 	batch(w, "1-just-staked", []int{0}, run.Pick(50, 2000))
